@@ -6,7 +6,7 @@ open LemoModel LemoModel.TxGuard Driver
 structure St where
   g : Guard := newTxGuard 0
   univ : List Block := []
-  fixed : Bool := false
+  fixed : Bool := true
 
 def core? (s : String) : Option Core :=
   match s.splitOn ":" with
